@@ -98,3 +98,18 @@ if len(_enc) != 64:
     missing.append("encode[65] string in base64.c")
 else:
     extra_text.append("Definition C16_B64_ENCODE : list N := [%s]%%N.  (* base64.c encode[] *)" % ";".join(str(ord(c)) for c in _enc))
+# which of the recorded HTTP parser defects are repaired in the current text (the
+# model of HttpLineModel.v follows the unrepaired text; Properties_C16.codec_fix_flags ties it)
+_hm = src("src/supplemental/http/http_msg.c")
+m = re.search(r"\nnni_http_req_parse\(.*?\n\}", _hm, re.S)
+if not m:
+    missing.append("nni_http_req_parse in http_msg.c")
+else:
+    extra_text.append("Definition C16_REQ_PARSE_KEEPS_ERR : bool := %s.  (* nni_http_req_parse leaves the loop when a line fails to parse *)"
+                      % ("true" if re.search(r"http_req_parse_line\(conn, line\);\s*\}\s*if \(rv != (?:0|NNG_OK)\) \{\s*break;", m.group(0)) else "false"))
+m = re.search(r"\nhttp_res_parse_line\(.*?\n\}", _hm, re.S)
+if not m:
+    missing.append("http_res_parse_line in http_msg.c")
+else:
+    extra_text.append("Definition C16_STATUS_STRICT : bool := %s.  (* http_res_parse_line insists on a 3-digit status code *)"
+                      % ("true" if re.search(r"strlen\(codestr\) != 3", m.group(0)) else "false"))
